@@ -247,6 +247,9 @@ fn gen_impl_delegation_trait_defs(
                     _ => continue,
                 };
 
+                // (`&'_ self` is `&self`: no lifetime the output could be named after)
+                let reference = reference
+                    .map(|(and, lifetime)| (and, lifetime.filter(|lifetime| lifetime.ident != "_")));
                 let impl_receiver: syn::FnArg = match reference {
                     Some((and, lifetime)) => {
                         // What the method borrows from `&self` it borrows from `__impl`: without
@@ -347,7 +350,8 @@ fn gen_impl_delegation_trait_defs(
                     },
                     _ => None,
                 };
-                let impl_lifetime = match receiver_lifetime {
+                // (`&'_ self` is `&self`: no lifetime the output could be named after)
+                let impl_lifetime = match receiver_lifetime.filter(|lifetime| lifetime.ident != "_") {
                     Some(lifetime) => {
                         crate::signature::name_elided_output_lifetimes_as(
                             &mut trait_fn.entrait_sig.sig,
